@@ -146,7 +146,10 @@ func decodeStruct(p Paragraph, into reflect.Value) error {
 		field := into.Field(i)
 		fieldType := into.Type().Field(i)
 
-		if field.Type().Kind() == reflect.Struct {
+		/* Nested structs share the paragraph's fields. The embedded
+		 * Paragraph is not one of them: it is the raw data, and its own
+		 * members (Values, Order) are no field names. */
+		if field.Type().Kind() == reflect.Struct && fieldType.Type != paragraphType {
 			err := decodeStruct(p, field)
 			if err != nil {
 				return err
@@ -172,6 +175,7 @@ func decodeStruct(p Paragraph, into reflect.Value) error {
 			if fieldType.Type == paragraphType {
 				/* Neat! Let's give the struct this data */
 				field.Set(reflect.ValueOf(p))
+				continue
 			} else {
 				/* Otherwise, we're going to avoid doing more maths on it */
 				continue
